@@ -2,7 +2,7 @@
 EXTENDS SubjectP
 Ops == {"unsub", "mute", "unmute", "inval"}
 Scripts0 == {<<>>}
-Single == {<<[k |-> k, t |-> t]>> : k \in Ops, t \in 0..3} \cup {<<[k |-> "sub", t |-> 0]>>, <<[k |-> "notify", t |-> 0]>>, <<[k |-> "throw", t |-> 0]>>}
+Single == {<<[k |-> k, t |-> t]>> : k \in Ops, t \in 0..3} \cup {<<[k |-> "sub", t |-> 0]>>, <<[k |-> "notify", t |-> 0]>>}
 Scripts1 == Scripts0 \cup Single
 Double == {s1 \o s2 : s1 \in Single, s2 \in Single}
 Scripts2 == Scripts0 \cup Double
